@@ -143,6 +143,10 @@ func (k Keeper) PlaceBid(ctx context.Context, msg *types.MsgPlaceBid) (types.Bid
 		}
 
 		bid.SetMatched(true)
+		// A bid that converts to zero selling coins receives nothing at settlement
+		if !bidSellingAmt.IsPositive() {
+			bid.SetMatched(false)
+		}
 
 	case types.BidTypeBatchWorth:
 		if err := k.ValidateBatchWorthBid(ctx, auction, bid); err != nil {
